@@ -145,6 +145,11 @@ def case(arg):
                 if not same and not X.first_value_kind(kn) and b != "seq":
                     continue
                 before = L.observe(l)
+                snap = None
+                if b == "l2d":
+                    import copy
+                    snap = object.__new__(type(l))
+                    snap.__dict__ = copy.deepcopy(l.__dict__)
                 repend = False
                 if same and rng.random() < 0.35 and b not in ("integ",):
                     # a retry: the told point is marked pending again, then its (same) result arrives once more
@@ -160,7 +165,7 @@ def case(arg):
                         return fail("retold_point_still_pending", f"the told point {p!r} was marked pending again and told again, it is still pending")
                     if before != after:
                         d = [kk for kk in before if before[kk] != after[kk]]
-                        if b == "l2d" and d == ["lossF"] and _hexclose(before["lossF"], after["lossF"], 1e-6):
+                        if b == "l2d" and d == ["lossF"] and snap is not None and _same_lossF_in_canonical_order(snap, l):
                             # Learner2D: the discard / add of the re-told point re-ordered the pending hash set, whose iteration
                             # order feeds the triangulation behind loss(real=False) (recorded finding l2d_pending_set_order)
                             res.setdefault("l2d_order", f"[{kn}] op {i} {op}: re-telling {p!r} changed loss(real=False) from "
@@ -233,6 +238,19 @@ def _hexclose(x, y, rtol):
     except (TypeError, ValueError):
         return False
     return abs(a - b_) <= rtol * max(abs(a), abs(b_))
+
+
+def _same_lossF_in_canonical_order(x, y):
+    """Learner2D: with both pending sets rebuilt by the same insertion sequence, do the two learners report the same
+    loss(real=False)?  (then a difference seen before was due to the iteration order of the pending hash set only)"""
+    vals = []
+    for l in (x, y):
+        l.pending_points = set(sorted(l.pending_points))
+        l._ip_combined = None
+        if hasattr(l, "_cache"):
+            l._cache = {}
+        vals.append(float(l.loss(real=False)))
+    return vals[0] == vals[1] or abs(vals[0] - vals[1]) <= 1e-12 * max(abs(vals[0]), abs(vals[1]))
 
 
 def rejected_tell_case(seed):
